@@ -21,19 +21,28 @@ def check(run):
     run.extra["source_translation_optimiser"] = _opt.summary()
     q = run.quick()
     n = 600 if q else 9000
-    run.rule = ("pair mix as C01, weighted to pairs below a threshold; each pair is run through the API in modes 1 and 2 "
+    run.rule = ("pair mix as C01, weighted to pairs below a threshold, plus multi-step pairs and text that is almost its background; each pair is run through the API in modes 1 and 2 "
                 "and with very_readable on/off (same mode, text size); non-trivial = at least one of the four runs had to "
                 "change the colour")
     pairs, kinds = gen_pairs(run.rng, n // 3)
     nbase = len(pairs)
     # pairs that need several default-mode steps (where a fallback of mode 2 could out-compete mode 1)
     pairs += [multi_step_pair(run.rng) for _ in range(n - n // 3)]
+    # text that is almost its background (ratio 1.0 - 1.3): the pairs that use up the step budget of the default mode, where a
+    # budget that depends on the setting would let the harder request succeed and the easier one fail
+    nfar = len(pairs)
+    for _ in range(n // 5):
+        b = tuple(run.rng.randrange(256) for _ in range(3))
+        d = run.rng.choice([0, 2, 5, 9, 14, 20])
+        pairs.append((tuple(max(0, min(255, x + run.rng.randint(-d, d))) for x in b), b))
     with pool() as p:
         caf = []
         api = []
         for pi, (t, b) in enumerate(pairs):
             large = run.rng.randrange(2)
             mode = run.rng.choice([0, 1, 2])
+            if pi >= nfar:
+                large, mode = run.rng.choice([0, 0, 1]), run.rng.choice([1, 1, 2, 0])
             ts, _ = spell(run.rng, t, run.rng.choice(OPAQUE_KINDS))
             bs, _ = spell(run.rng, b, run.rng.choice(OPAQUE_KINDS))
             # (a) mode 1 vs mode 2, both settings of very
